@@ -28,7 +28,7 @@ func init() {
 			"a positive control (a deliberately racy scratch-buffer codec driven by the same explorer) must be found violating in every run",
 		},
 		BoundsQuick:    "histories of length <= 3; schedules: 2 threads, 1 operation each, preemption bound 2 (bound 1 for operations with more than 250 scheduling points)",
-		BoundsThorough: "histories of length <= 4; schedules: preemption bound 3 for operations up to 60 points, 2 up to 400, 1 above; adds 3-thread drivers at bound 1",
+		BoundsThorough: "histories of length <= 5; schedules: preemption bound 3 for executions up to 140 scheduling points, 2 up to 700, 1 above; adds 3-thread drivers at bound 1-2",
 	})
 }
 
@@ -226,7 +226,7 @@ func c18Histories(c *bx.Ctx) {
 	c.Space("histories")
 	maxLen := 3
 	if c.Thorough() {
-		maxLen = 4
+		maxLen = 5
 	}
 	// warm-up: run every operation once so that one-time lazy initialisation (if a change
 	// introduces any) has happened before the package-variable snapshot is taken
@@ -727,9 +727,9 @@ func c18Schedules(c *bx.Ctx) {
 		}
 		if c.Thorough() {
 			switch {
-			case st0.MaxPoints <= 60:
+			case st0.MaxPoints <= 140:
 				bound = 3
-			case st0.MaxPoints <= 400:
+			case st0.MaxPoints <= 700:
 				bound = 2
 			default:
 				bound = 1
